@@ -5,7 +5,7 @@ ID = "C04"
 LEAN_MODULES = ["QtyModel.Props.C04", "QtyModel.Props.C04RoundTrip", "QtyModel.Props.Backends", "QtyModel.Props.OracleSound", "QtyModel.Props.TieTemplates", "QtyModel.Props.OracleSoundC04", "QtyModel.Props.Bridge2"]
 HARNESS_GROUPS = ('g_derived',)
 # kinds of difference in the macro-level correspondence (tools/macrofront.py) that are failing inputs here
-MACRO_PARTS = ("impls",)
+MACRO_PARTS = ("impls", "items")
 RULE = ("every operator instance the model predicts from the declarations (catalogue 34, astronomical, synthetic) x "
         "every unit pair of the operand types x amount pairs x the four owned/borrowed forms; oracle = exact-rational "
         "bound on the result's reference-unit magnitude; two-step chains (x*y)/y and (x/y)*y on every unit pair, the "
